@@ -52,6 +52,8 @@ def oracle(name, handler, real):
     out = []
     rs = real["raw"]
     table = real["table"]
+    # once the association with the move destination is lost every later sub-operation fails too
+    handler = sd.normalise_lost(handler, "move" in name.lower())
     n = announced(name, handler)
     pend = [r for r in rs if r["status"] == 0xFF00]
     if pend and n is None:
